@@ -54,6 +54,9 @@ enum Cond {
 enum Mode {
     Node,
     Manager,
+    /// through a StreamJoinManager that also holds sibling joins sharing the left and/or right
+    /// stream, registered and unregistered around and during the run (history number 0..=4)
+    Siblings(u8),
 }
 
 #[derive(Clone, Debug, Hash)]
@@ -105,7 +108,8 @@ impl Case {
         let mut j = json!({
             "window_s": self.w,
             "condition": match self.cond { Cond::True => "true", Cond::VLe => "l.v<=r.v" },
-            "mode": match self.mode { Mode::Node => "node", Mode::Manager => "manager" },
+            "mode": match self.mode { Mode::Node => "node".to_string(), Mode::Manager => "manager".to_string(), Mode::Siblings(h) => format!("manager-with-siblings:{}", h) },
+            "sibling_history": match self.mode { Mode::Siblings(h) => json!(SIBLING_HISTORIES[h as usize % SIBLING_HISTORIES.len()]), _ => Json::Null },
             "left": self.left.iter().map(ev_json).collect::<Vec<_>>(),
             "right": self.right.iter().map(ev_json).collect::<Vec<_>>(),
             "steps": self.steps.iter().map(step_str).collect::<Vec<_>>(),
@@ -129,7 +133,7 @@ impl Case {
             mode: match j["mode"].as_str()? {
                 "node" => Mode::Node,
                 "manager" => Mode::Manager,
-                _ => return None,
+                m => Mode::Siblings(m.strip_prefix("manager-with-siblings:")?.parse().ok()?),
             },
             left: j["left"].as_array()?.iter().map(ev_parse).collect::<Option<_>>()?,
             right: j["right"].as_array()?.iter().map(ev_parse).collect::<Option<_>>()?,
@@ -204,9 +208,32 @@ fn make_node(w: u64, cond: Cond) -> StreamJoinNode {
     )
 }
 
+/// what happens to the siblings of the join under test ("j" = left x right), in words
+const SIBLING_HISTORIES: [&str; 5] = [
+    "register sA(left x other), j; unregister sA before the first arrival",
+    "register j, sB(other x right); unregister sB before the first arrival",
+    "register sA(left x other), j, sB(other x right); unregister sA after the 1st step and sB after the 2nd",
+    "register sC(left x right, its own sink), j; unregister sC after the 1st step",
+    "register j, sA(left x other); unregister a join id that was never registered; sA stays",
+];
+
+fn sibling_node(left: &str, right: &str, w: u64) -> StreamJoinNode {
+    StreamJoinNode::new(
+        left.to_string(),
+        right.to_string(),
+        JoinType::Inner,
+        JoinStrategy::TimeWindow { duration: Duration::from_secs(w) },
+        Box::new(key_of),
+        Box::new(key_of),
+        Box::new(|_, _| true),
+    )
+}
+
 enum Driver {
     Node(Box<StreamJoinNode>),
     Manager(StreamJoinManager, Arc<Mutex<Vec<JoinedEvent>>>),
+    /// manager, sink of "j", (unregister this id once that many steps are done), steps done
+    Siblings(StreamJoinManager, Arc<Mutex<Vec<JoinedEvent>>>, Vec<(usize, &'static str)>, usize),
 }
 
 impl Driver {
@@ -225,9 +252,65 @@ impl Driver {
                 );
                 Driver::Manager(m, sink)
             }
+            Mode::Siblings(h) => {
+                let sink: Arc<Mutex<Vec<JoinedEvent>>> = Arc::new(Mutex::new(Vec::new()));
+                let mut m = StreamJoinManager::new();
+                let reg = |m: &mut StreamJoinManager, id: &str, n: StreamJoinNode, sink: Option<Arc<Mutex<Vec<JoinedEvent>>>>| {
+                    m.register_join(
+                        id.to_string(),
+                        n,
+                        match sink {
+                            Some(s) => Box::new(move |je| s.lock().unwrap().push(je)),
+                            None => Box::new(|_| {}),
+                        },
+                    );
+                };
+                let mut later: Vec<(usize, &'static str)> = Vec::new();
+                match h % SIBLING_HISTORIES.len() as u8 {
+                    0 => {
+                        reg(&mut m, "sA", sibling_node("left", "other", c.w), None);
+                        reg(&mut m, "j", node, Some(sink.clone()));
+                        m.unregister_join("sA");
+                    }
+                    1 => {
+                        reg(&mut m, "j", node, Some(sink.clone()));
+                        reg(&mut m, "sB", sibling_node("other", "right", c.w), None);
+                        m.unregister_join("sB");
+                    }
+                    2 => {
+                        reg(&mut m, "sA", sibling_node("left", "other", c.w), None);
+                        reg(&mut m, "j", node, Some(sink.clone()));
+                        reg(&mut m, "sB", sibling_node("other", "right", c.w), None);
+                        later = vec![(1, "sA"), (2, "sB")];
+                    }
+                    3 => {
+                        reg(&mut m, "sC", sibling_node("left", "right", c.w), None);
+                        reg(&mut m, "j", node, Some(sink.clone()));
+                        later = vec![(1, "sC")];
+                    }
+                    _ => {
+                        reg(&mut m, "j", node, Some(sink.clone()));
+                        reg(&mut m, "sA", sibling_node("left", "other", c.w), None);
+                        m.unregister_join("never-registered");
+                    }
+                }
+                Driver::Siblings(m, sink, later, 0)
+            }
+        }
+    }
+    /// sibling joins leave the manager at their appointed step
+    fn tick(&mut self) {
+        if let Driver::Siblings(m, _, later, done) = self {
+            for (at, id) in later.iter() {
+                if *at == *done {
+                    m.unregister_join(id);
+                }
+            }
+            *done += 1;
         }
     }
     fn arrive(&mut self, left: bool, e: StreamEvent) -> Vec<JoinedEvent> {
+        self.tick();
         match self {
             Driver::Node(n) => {
                 if left {
@@ -236,7 +319,7 @@ impl Driver {
                     n.process_right(e)
                 }
             }
-            Driver::Manager(m, sink) => {
+            Driver::Manager(m, sink) | Driver::Siblings(m, sink, _, _) => {
                 // routed by `metadata.source`
                 m.process_event(e);
                 std::mem::take(&mut *sink.lock().unwrap())
@@ -244,9 +327,10 @@ impl Driver {
         }
     }
     fn watermark(&mut self, w: i64) -> Vec<JoinedEvent> {
+        self.tick();
         match self {
             Driver::Node(n) => n.update_watermark(w),
-            Driver::Manager(m, sink) => {
+            Driver::Manager(m, sink) | Driver::Siblings(m, sink, _, _) => {
                 m.update_watermark("left", w);
                 m.update_watermark("right", w);
                 std::mem::take(&mut *sink.lock().unwrap())
@@ -259,7 +343,7 @@ impl Driver {
                 let s = n.get_stats();
                 s.left_buffer_size + s.right_buffer_size
             }
-            Driver::Manager(m, _) => m
+            Driver::Manager(m, _) | Driver::Siblings(m, _, _, _) => m
                 .get_join_stats("j")
                 .map(|s| s.left_buffer_size + s.right_buffer_size)
                 .unwrap_or(0),
@@ -708,6 +792,9 @@ fn check_case(c: &Case, st: &mut Stats) -> Option<BTreeSet<(usize, usize)>> {
             if c.mode == Mode::Manager {
                 st.count("runs_through_StreamJoinManager");
             }
+            if matches!(c.mode, Mode::Siblings(_)) {
+                st.count("runs_through_StreamJoinManager_with_sibling_joins_registered_and_unregistered");
+            }
             report_all(c, &discs, st);
             Some(info.emitted_set)
         }
@@ -875,7 +962,11 @@ fn random_pair(rng: &mut Rng) -> Case {
     Case {
         w: *rng.pick(&[0u64, 1, 2, 5]),
         cond: if rng.bool() { Cond::True } else { Cond::VLe },
-        mode: if rng.chance(1, 4) { Mode::Manager } else { Mode::Node },
+        mode: match rng.below(8) {
+            0 | 1 => Mode::Manager,
+            2 => Mode::Siblings(rng.below(SIBLING_HISTORIES.len()) as u8),
+            _ => Mode::Node,
+        },
         left,
         right,
         steps: vec![],
@@ -909,7 +1000,7 @@ impl Check for C14 {
         "C14"
     }
     fn rule(&self) -> String {
-        "A 'pair' is (left sequence, right sequence, window w in whole seconds, join condition, driver = StreamJoinNode directly or through StreamJoinManager). For EVERY pair ALL merges of the two arrival orders are run (C(n+m,n), 70 for 4+4): once without watermark updates (emitted multiset must equal the reference join exactly; emitted sets are also compared directly between merges) and with watermark updates between arrivals (no duplicates, subset of the reference, a missing pair only if its first-arrived side was eligible for eviction at an update before the partner arrived). EXHAUSTIVE part: every pair of sequences of <=2+2 events over the stated small event domain x w in {0,1,2} x both conditions x all merges x {no watermark update; ONE update at every gap with every value 0..=ts_max+w+1}. RANDOM part: sequences of 0..=4 + 0..=4 events, 1..=3 keys, 1/6 of the events without key, timestamps 0..=6 (or 0..=3), w in {0,1,2,5}, condition true or l.v<=r.v; watermark variants per merge: 'track' (after every arrival update_watermark(max ts seen - lag), lag in {0,1,2}) and 1..=3 random non-decreasing updates at random gaps. A pair is non-trivial when its reference join is non-empty AND (some same-key pair is excluded by window/condition OR some event has no key); distinct by (w, condition, both sequences).".into()
+        "A 'pair' is (left sequence, right sequence, window w in whole seconds, join condition, driver = StreamJoinNode directly, through StreamJoinManager, or (1/8 of the random pairs) through a StreamJoinManager that also holds sibling joins sharing the left and/or right stream which are unregistered before or during the run, 5 such histories). For EVERY pair ALL merges of the two arrival orders are run (C(n+m,n), 70 for 4+4): once without watermark updates (emitted multiset must equal the reference join exactly; emitted sets are also compared directly between merges) and with watermark updates between arrivals (no duplicates, subset of the reference, a missing pair only if its first-arrived side was eligible for eviction at an update before the partner arrived). EXHAUSTIVE part: every pair of sequences of <=2+2 events over the stated small event domain x w in {0,1,2} x both conditions x all merges x {no watermark update; ONE update at every gap with every value 0..=ts_max+w+1}. RANDOM part: sequences of 0..=4 + 0..=4 events, 1..=3 keys, 1/6 of the events without key, timestamps 0..=6 (or 0..=3), w in {0,1,2,5}, condition true or l.v<=r.v; watermark variants per merge: 'track' (after every arrival update_watermark(max ts seen - lag), lag in {0,1,2}) and 1..=3 random non-decreasing updates at random gaps. A pair is non-trivial when its reference join is non-empty AND (some same-key pair is excluded by window/condition OR some event has no key); distinct by (w, condition, both sequences).".into()
     }
     fn assumptions(&self) -> Vec<String> {
         vec![
